@@ -37,7 +37,7 @@ fn linearise(lines: Vec<String>, ids: &[usize], out: &mut Out) -> (usize, usize)
                 let whole = if hit {
                     // every field of the stored entry must derive from the one value (see verif::Table)
                     let d = v["entry"]["depth"].as_u64().unwrap();
-                    v["entry"]["max"].as_u64().unwrap() == d + 1 && v["entry"]["eval"].as_i64().unwrap() == d as i64
+                    v["entry"]["max"].as_u64().unwrap() == d + 1 + (d / 3) % 7 && v["entry"]["eval"].as_i64().unwrap() == d as i64
                 } else { true };
                 out.ev(json!({"ev": "Find", "t": t, "version": v["version"], "key": key_json(key), "hit": hit, "val": if hit { v["entry"]["depth"].clone() } else { json!(-1) }, "whole": whole, "w": v["w"]}));
             }
